@@ -12,7 +12,7 @@ if ! git -C $wt apply $patch 2>/dev/null; then echo "PATCH-DOES-NOT-APPLY" > $sd
 export VERIF_OUT=/tmp/mut/mxout-$name VERIF_REPO=$wt VERIF_TARGET=/tmp/mut/mxtarget-$name VERIF_JOBS=${VERIF_JOBS:-8}
 : > $sd/matrix.txt
 for id in "$@"; do
-  out=$(/verif/check $id quick 2>&1)
+  out=$(${VERIF_HOME:-/verif}/check $id quick 2>&1)
   rc=$?
   line=$(echo "$out" | grep -E "^$id quick" | tail -1)
   nsig=$(echo "$out" | grep -c "signature:")
